@@ -113,7 +113,8 @@ Inductive ex :=
 | EDiv (a b : ex)                               (* a / b : Python's true division *)
 | ENeg (a : ex)                                 (* -a *)
 | EFun (f : string) (a : ex)                    (* one-argument math function, f the C++ name *)
-| EBool (is_and : bool) (a b : ex).             (* a and b / a or b : the second operand's code sits in `if (v)` / `if (!v)` *)
+| EBool (is_and : bool) (a b : ex)              (* a and b / a or b : the second operand's code sits in `if (v)` / `if (!v)` *)
+| EIf (c a b : ex).                             (* a if c else b : each arm's code sits in its own branch of if / else *)
 
 Definition nm (base : string) (n : nat) : string := base +++ dec_nat n.
 
@@ -217,6 +218,7 @@ Fixpoint ex_type (e : ex) : string :=
   | EIdx _ _ _ | EDbl _ _ _ | EDiv _ _ | EFun _ _ => "double"
   | ENeg a => ex_type a
   | EBool _ _ _ => "bool"
+  | EIf _ _ _ => "double"
   end.
 (* visit_BinOp for `/` at event level: the same rule as inside a lambda (div_needs_cast) *)
 Definition ex_div_needs_cast (a b : ex) : bool := negb (String.eqb (ex_type a) "double" || String.eqb (ex_type b) "double").
@@ -252,6 +254,17 @@ Fixpoint te (idiom : string) (e : ex) (n : nat) : list decl * stmts * cexp * nat
       (bo_decl v :: da,
        bo_lower is_and v sa ca [bo_operand v db sb cb],
        CVar v, n2)
+  | EIf c a b =>
+      (* visit_IfExp: a double result variable named first and declared in the current block; the test's code in the current
+         block; each arm's declarations, code and assignment (cast to double unless the arm is one) in its own branch *)
+      let v := nm "if_else_result" n in
+      let '(dc, sc, cc, n1) := te idiom c (S n) in
+      let '(da, sa, ca, n2) := te idiom a n1 in
+      let '(db, sb, cb, n3) := te idiom b n2 in
+      (ie_decl v :: dc,
+       snoc_stmts sc (SIf cc (Blk da (snoc_stmts sa (SSet v (if String.eqb (ex_type a) "double" then None else Some "double") ca)))
+                           (Some (Blk db (snoc_stmts sb (SSet v (if String.eqb (ex_type b) "double" then None else Some "double") cb))))),
+       CVar v, n3)
   end.
 
 Definition col_name (n : nat) : string := nm "_col1" n.   (* = mem_name "col1" n (cident "col1" = "col1") *)
@@ -278,6 +291,7 @@ Fixpoint ex_size (e : ex) : nat :=
   | EInt _ | EDbl _ _ _ => 0 | ECount k => 3 + gsize (k_guard k) + agg_nifs (k_agg k)
   | EBin _ a b | EDiv a b => ex_size a + ex_size b | EIdx _ _ _ => 1 | ENeg a | EFun _ a => ex_size a
   | EBool _ a b => S (ex_size a + ex_size b)
+  | EIf c a b => S (ex_size c + ex_size a + ex_size b)
   end.
 Definition col_size (c : column) : nat :=
   match c with ColScalar e => ex_size e | ColVec _ g body => 2 + gsize g + nifs body | ColFirst _ g _ _ => 3 + gsize g end.
@@ -466,6 +480,9 @@ Fixpoint de (ev : event) (e : ex) : res value :=
       (* lazy: the second operand is evaluated only when the first does not decide *)
       rdo x <- de ev a; rdo t <- truth (conv "bool" x);
       if Bool.eqb t is_and then rdo y <- de ev b; rdv (conv "bool" y) else ROk (conv "bool" x)
+  | EIf c a b =>
+      (* lazy: only the taken arm is evaluated *)
+      rdo x <- de ev c; rdo t <- truth x; rdo y <- (if t then de ev a else de ev b); rdv (conv "double" y)
   end.
 (* The emitted code works in two phases: first the statements of every sub-expression (retrievals and loops, left to
    right), then the value expression (where at() is evaluated).  `dstm` is what can go wrong in the first phase; `dex` is
@@ -486,6 +503,9 @@ Fixpoint dstm (ev : event) (e : ex) : res unit :=
          the first operand in its two phases, and - only if it does not decide - the second operand in its two phases *)
       rdo _ <- dstm ev a; rdo x <- de ev a; rdo t <- truth (conv "bool" x);
       if Bool.eqb t is_and then rdo _ <- dstm ev b; rdo _ <- de ev b; ROk tt else ROk tt
+  | EIf c a b =>
+      rdo _ <- dstm ev c; rdo x <- de ev c; rdo t <- truth x;
+      if t then rdo _ <- dstm ev a; rdo _ <- de ev a; ROk tt else rdo _ <- dstm ev b; rdo _ <- de ev b; ROk tt
   end.
 Definition dex (ev : event) (e : ex) : res value := rdo _ <- dstm ev e; de ev e.
 
@@ -665,6 +685,8 @@ Fixpoint d_ex_fuel (fuel : nat) (s : sexp) : option ex :=
         match d_ex_fuel f a, d_ex_fuel f b with Some a', Some b' => Some (EBool true a' b') | _, _ => None end
     | SList [SAtom "or"; a; b] =>
         match d_ex_fuel f a, d_ex_fuel f b with Some a', Some b' => Some (EBool false a' b') | _, _ => None end
+    | SList [SAtom "eif"; c; a; b] =>
+        match d_ex_fuel f c, d_ex_fuel f a, d_ex_fuel f b with Some c', Some a', Some b' => Some (EIf c' a' b') | _, _, _ => None end
     | SList [SAtom "neg"; a] => option_map ENeg (d_ex_fuel f a)
     | SList [SAtom "fun"; SAtom fn; a] => option_map (EFun fn) (d_ex_fuel f a)
     | SList [SAtom "idx"; SAtom base; SAtom ct; SAtom bank; ar; i; SAtom m] =>
